@@ -315,6 +315,18 @@ def main():
                 discharged = len(theorems)
                 assumptions = parse_assumptions(out, theorems)
     note("coq: %d/%d property theorems checked in %.1fs" % (discharged, len(theorems), coq_wall))
+    coqchk_info = None
+    if tier == "thorough" and discharged == len(theorems) and theorems and not replay and os.environ.get("VERIF_NO_COQCHK") != "1":
+        with CoqLock():
+            rc, out, wall = sh(["coqchk", "-silent", "-o", "-Q", ".", "GU", "GU.%s.Props" % cd.replace("/", ".")], cwd=COQ, timeout=3000)
+        axioms = []
+        m = re.search(r"\* Axioms:(.*?)(?:\n\s*\n|\* |\Z)", out, re.S)
+        if m:
+            axioms = [a.strip() for a in m.group(1).strip().split("\n") if a.strip() and a.strip() != "<none>"]
+        coqchk_info = {"rc": rc, "wall_s": round(wall, 1), "axioms_of_loaded_libraries": axioms, "tail": out[-600:]}
+        note("coqchk: rc=%d in %.1fs, axioms: %s" % (rc, wall, ", ".join(axioms) or "none"))
+        if rc != 0:
+            broken.append({"kind": "proof", "name": "coqchk", "detail": out[-1500:]})
 
     # ---- 3. harness
     hbin = os.path.join(HARNESS, "bin", hname)
@@ -416,14 +428,14 @@ def main():
             continue
         seen_viol.add(sig)
         violations += 1
-        rp = os.path.join(ROOT, "replays", "%s_%s_seed%d.json" % (pid, re.sub(r"[^A-Za-z0-9_.-]+", "_", sig)[:80], seed))
+        rp = os.path.join(ROOT, "replays" if REPO == "/repo" else os.path.join("work", pid), "%s_%s_seed%d.json" % (pid, re.sub(r"[^A-Za-z0-9_.-]+", "_", sig)[:80], seed))
         json.dump({"property": pid, "seed": seed, "tier": tier, "signature": sig, "what": f.get("what"),
                    "replay": f.get("replay"), "how_to_replay": "./check %s --replay %s" % (pid, rp)}, open(rp, "w"), indent=1)
         lines.append("VIOLATION property=%s replay=%s" % (pid, rp))
         note("violation: %s — %s" % (sig, f.get("what")))
     if broken and violations == 0:
         violations += 1
-        rp = os.path.join(ROOT, "replays", "%s_tie_broken_seed%d.json" % (pid, seed))
+        rp = os.path.join(ROOT, "replays" if REPO == "/repo" else os.path.join("work", pid), "%s_tie_broken_seed%d.json" % (pid, seed))
         json.dump({"property": pid, "seed": seed, "tier": tier, "no_longer_checks": broken,
                    "explanation": "A proof obligation, the translator, or the model/implementation correspondence no longer checks; "
                                   "the search found no concrete input on which the property fails."}, open(rp, "w"), indent=1)
@@ -445,7 +457,7 @@ def main():
         "distinct_nontrivial": (obs or {}).get("distinct_nontrivial", 0),
         "rule": (obs or {}).get("rule", ""),
         "samples": (obs or {}).get("samples", [])[:12],
-        "traces_validated_against_impl": sum(1 for _ in []) + ((obs or {}).get("cases_emitted", 0) - len(mismatches) if corr_results else 0),
+        "traces_validated_against_impl": max(0, (obs or {}).get("cases_emitted", 0) - len(mismatches)) if corr_results and all(r["mismatch_ids"] is not None for r in corr_results) else 0,
         "correspondence_case_files": corr_results,
         "correspondence_mismatches": len(mismatches),
         "input_distribution": (obs or {}).get("distribution", {}),
@@ -456,6 +468,8 @@ def main():
         "modelled_not_verified": cfg.get("modelled_not_verified", []),
         "coq_wall_s": round(coq_wall, 1),
     }
+    if coqchk_info:
+        cov["coqchk"] = coqchk_info
     if (obs or {}).get("exhaustive"):
         cov["exhaustive"] = True
     ev = {
@@ -464,7 +478,11 @@ def main():
         "wall_s": round(time.time() - t_start, 1),
         "violations": violations,
     }
-    if not replay:
+    if REPO != "/repo":
+        # development / seeded-change run against a scratch worktree: never overwrite the committed evidence
+        ev["repo"] = REPO
+        json.dump(ev, open(os.path.join(work, "evidence.json"), "w"), indent=1)
+    elif not replay:
         json.dump(ev, open(os.path.join(ROOT, "evidence", pid + ".json"), "w"), indent=1)
     for l in lines:
         print(l, flush=True)
